@@ -98,6 +98,7 @@ var propImports = map[string][]imp{
 		{"C01.12/limit-read-per-connection", "C16", "the receive limit a message is checked against is the one configured when its connection is accepted: a stale limit drops messages the property says are delivered", []string{"C16.11/limit-read-per-connection"}},
 	},
 	"C02": {
+		{"C02.19/conn-configuration", "C15", "an established conversation is not torn down by the transport itself: no deadline is left armed on the connection (a write deadline set for the handshake and never cleared fails every Send made later, closes the pipe and loses the message)", []string{"C15.13/conn-configuration"}},
 		{"C02.18/carry-on", "C12", "PAIR admits the next peer once the first has gone: a listener keeps accepting whatever happened to an earlier connection attempt — a peer's failure (a hang-up during the handshake included) is never reported as 'endpoint closed', which is what ends the accept loop and the redial", []string{"C12.5/ErrClosed-means-closed", "C12.3/endpoint-usable"}},
 		{"C02.17/redial-timer", "C14", "a further connection attempt follows every loss: the redial timer is stopped and cleared only by the dialer's Close (a late attach notification that cancels it leaves the dialer silent for good, and the peer waiting for its turn is never admitted)", []string{"C14.13/timer-discipline|internal/core.dialer.redialer"}},
 		{"C02.16/framing", "C01", "each frame's length prefix is read completely before it is interpreted: a short read of the prefix turns the rest of the stream into messages nobody sent", []string{"C01.3/framing"}},
@@ -109,6 +110,7 @@ var propImports = map[string][]imp{
 		{"C02.10/lifecycle", "C13", "the protocol is told of every arrival and departure exactly once: a second peer is admitted once the first has gone", []string{"C13.1/addPipe", "C13.2/detached", "C13.3/once-each"}},
 	},
 	"C03": {
+		{"C03.18/req-send-outcome", "C17", "a Send that gave up wipes its own request only: SendMsg reports an error, and clears the request state, only while its message is still the one parked (a newer request sent meanwhile keeps its id, so its abandoned predecessor's late reply finds nothing)", []string{"C17.11/req-send-outcome"}},
 		{"C03.17/websocket-frame", "C01", "the reply handed to the application is the payload of its own frame, in memory of its own: a body that is a window into a buffer the connection reuses turns into the next frame's bytes (a stale or unsolicited reply the receiver rightly drops) before Recv returns it", []string{"C01.6/websocket"}},
 		{"C03.16/send-contract", "C17", "a failed transmission leaves the message with its sender at every layer: REQ keeps that message for retransmission, and a buffer released under it is recycled into the next incoming reply", []string{"C17.5/send-contract|internal/core"}},
 		{"C03.14/ownership", "C17", "the request REQ keeps is not released under it (with retries disabled too): a recycled buffer turns the reply being delivered into another message", []string{"C17.1/E5|protocol/req"}},
